@@ -151,7 +151,8 @@ def corpus():
     add("%s.b8" % r, lambda r=r: getattr(registers, r)(Bits8))
   try:
     from pymtl3.stdlib.basic_rtl import crossbars, encoders
-    add("Crossbar.3.b16", lambda: crossbars.Crossbar(3, Bits16))
+    add("Crossbar.4.b16", lambda: crossbars.Crossbar(4, Bits16))
+    add("Crossbar.2.b8", lambda: crossbars.Crossbar(2, Bits8))
     add("Encoder.8.3", lambda: encoders.Encoder(8, 3))
     add("Encoder.5.3", lambda: encoders.Encoder(5, 3))
   except Exception:
@@ -186,6 +187,16 @@ def corpus():
 _corpus_cache = {}
 
 
+def testcase_names():
+  """the repository's own translator test-case designs (pymtl3/passes/testcases/test_cases.py):
+  used as a corpus of shapes (interfaces, heterogeneous arrays, struct temporaries, ...) with OUR inputs."""
+  if "tc" not in _corpus_cache:
+    import pymtl3.passes.testcases.test_cases as tc
+    _corpus_cache["tc"] = sorted(n for n in dir(tc) if n.startswith("Case") and hasattr(getattr(tc, n), "DUT"))
+    _corpus_cache["tcmod"] = tc
+  return _corpus_cache["tc"]
+
+
 def corpus_names():
   if "names" not in _corpus_cache:
     _corpus_cache["map"] = corpus()
@@ -209,6 +220,48 @@ class Top_{uid}(Component):
     @update
     def up():
       s.o @= sext(s.a + s.b, 8)
+''',
+  # F19: sext() of a list element replicates the whole element instead of its sign bit
+  "sext_of_list_element": '''
+from pymtl3 import *
+class Top_{uid}(Component):
+  def construct(s):
+    s.a = [InPort(Bits3) for _ in range(2)]
+    s.o = OutPort(Bits8)
+    @update
+    def up():
+      s.o @= sext(s.a[1], 8)
+''',
+  # F18 (Yosys backend): trunc() keeps the un-flattened name of a struct field / sub-component port
+  "trunc_of_struct_field": '''
+from pymtl3 import *
+S_{uid} = mk_bitstruct('S_{uid}', {{'a': Bits8, 'b': Bits4}})
+class Top_{uid}(Component):
+  def construct(s):
+    s.i = InPort(S_{uid})
+    s.o = OutPort(Bits2)
+    @update
+    def up():
+      s.o @= trunc(s.i.a, 2)
+''',
+  "trunc_of_subcomponent_port": '''
+from pymtl3 import *
+class Inner_{uid}(Component):
+  def construct(s):
+    s.i = InPort(Bits8)
+    s.o = OutPort(Bits8)
+    @update
+    def up():
+      s.o @= s.i + 1
+class Top_{uid}(Component):
+  def construct(s):
+    s.i = InPort(Bits8)
+    s.o = OutPort(Bits2)
+    s.m = Inner_{uid}()
+    s.m.i //= s.i
+    @update
+    def up():
+      s.o @= trunc(s.m.o, 2)
 ''',
   # F5: folded constant sub-expression with a non-ring operator
   "folded_const_shift": '''
@@ -292,6 +345,15 @@ def build_instances(case):
       top.elaborate()
       return top
     return make
+  if fam == "testcase":
+    testcase_names()
+    cls = getattr(_corpus_cache["tcmod"], case["name"]).DUT
+
+    def make():
+      top = cls()
+      top.elaborate()
+      return top
+    return make
   src = PROBES[case["name"]].format(uid=case["uid"])
 
   def make():
@@ -309,10 +371,13 @@ def gen_case(R, tier, backend, profile="translatable"):
   r = c.random()
   base = {"backend": backend, "hash_seed": R.sub_seed("hash"), "uid": "x%x" % (R.seed & 0xffffff),
           "orders": [s.getrandbits(16) for _ in range(2)], "input_seed": inp.getrandbits(32)}
-  if r < 0.70:
+  if r < 0.62:
     spec = designgen.DesignGen(c, profile, uid=base["uid"]).gen()
     base.update(family="random", spec=spec, ncycles=inp.randint(8, 24),
                 resets=sorted({inp.randrange(24) for _ in range(inp.choice([0, 0, 1, 2]))}))
+  elif r < 0.80:
+    nm = c.choice(testcase_names())
+    base.update(family="testcase", name=nm, ncycles=inp.randint(6, 16), resets=[])
   elif r < 0.93:
     names = corpus_names()
     nm = c.choice(names)
@@ -332,7 +397,7 @@ def run_case(case):
   stats = {"fault_counts": {"family." + fam: 1}, "sim_cycles": 0, "sv_process_activations": 0,
            "outcomes": {}, "probes": {}}
   tag = case["name"] if fam != "random" else "random"
-  sig_shape = case["name"] if fam == "probe" else fam
+  sig_shape = case["name"] if fam in ("probe", "testcase") else fam
 
   def out(v=None, outcome="ok", nontrivial=False):
     stats["outcomes"][outcome] = 1
@@ -347,6 +412,8 @@ def run_case(case):
   try:
     top_t = make()
   except Exception as e:
+    if fam == "testcase":       # many test-case designs are deliberately illegal
+      return out(None, "testcase_does_not_elaborate")
     return out(C.exc_violation(e, "elaborate/%s" % tag), "elaborate_error")
   try:
     text, top_module = translate(top_t, backend)
@@ -372,9 +439,20 @@ def run_case(case):
   except svsim.SvElabError as e:
     return out(bad("sv_elab", error=str(e)[:300], line=_line_of(text, e)), "sv_elab")
   issues = design.static_issues()
+  # 'undriven' (read but never driven) mirrors undriven wires of the PyMTL source (they read 0 on both
+  # sides in two-state semantics) and svsim reports it conservatively: counted, not a violation.
+  for kind, msg in issues:
+    if kind == "undriven":
+      stats["fault_counts"]["note.sv_undriven_variable"] = stats["fault_counts"].get("note.sv_undriven_variable", 0) + 1
+  split_struct = backend == "yosys" and _struct_wire_split(text, [m for k, m in issues if k == "undriven"])
+  issues = [i for i in issues if i[0] != "undriven"]
   if issues:
     kind = issues[0][0]
-    return out(bad("sv_static_" + kind, issues=[list(i) for i in issues[:3]]), "sv_static")
+    v = bad("sv_static_" + kind, issues=[list(i) for i in issues[:3]])
+    if all(i[0] == "multi_driver" and _is_struct_flatten_double_drive(text, i[1]) for i in issues):
+      # known finding F13: recognised by the shape of the emitted text, not by the design
+      v["sig"]["shape"] = "yosys_struct_flatten_double_drive"
+    return out(v, "sv_static")
   # 3. port map
   ports = top_ports(top_t, backend)
   covered = {}
@@ -398,6 +476,8 @@ def run_case(case):
     m.apply(DefaultPassGroup(linetrace=False))
     m.sim_reset()
   except Exception as e:
+    if fam == "testcase":
+      return out(None, "testcase_not_simulatable")
     return out(C.exc_violation(e, "pymtl_sim/%s" % tag), "pymtl_error")
   sims = []
   try:
@@ -423,8 +503,13 @@ def run_case(case):
           exp = (pv >> lo) & ((1 << w) - 1)
           got = sim.get(n)
           if got != exp:
-            return bad("sv_value_mismatch", when=when, port=n, pymtl=hex(exp), sv=hex(got),
-                       order_seed=sim.order_seed)
+            v = bad("sv_value_mismatch", when=when, port=n, pymtl=hex(exp), sv=hex(got),
+                    order_seed=sim.order_seed)
+            if split_struct:
+              # known finding F14, recognised from the emitted text (see _struct_wire_split)
+              v["sig"]["shape"] = "yosys_struct_whole_vs_fields"
+              v["detail"]["split_struct_variable"] = split_struct
+            return v
     return None
 
   prev = {p.py: 0 for p in ins}
@@ -476,10 +561,58 @@ def run_case(case):
     stats["fault_counts"]["pymtl_index_error"] = 1
     return out(None, "pymtl_index_error")
   except Exception as e:
+    if fam == "testcase" and not type(e).__module__.startswith("dsim"):
+      return out(None, "testcase_pymtl_runtime_error")
     return out(C.exc_violation(e, "cosim/%s" % tag), "cosim_error")
   stats["sv_process_activations"] = sum(s_.stats.get("activations", 0) for s_ in sims)
   stats["fault_counts"]["sched.sv_process_orders"] = len(sims)
   return out(None, "ok", nontrivial=seen_nonzero and len(outs) > 0)
+
+
+def _is_struct_flatten_double_drive(text, msg):
+  """multi_driver on a flattened struct-field variable `B__..__f` where one of the two drivers is
+  `assign B__..__f = B[...]...` (slice of the packed whole B) or `= B__f[i]` (element of a per-field array)."""
+  m = re.search(r"variable '([\w.]+)'", msg)
+  lines = [int(x) for x in re.findall(r"\(line (\d+)\)", msg)]
+  if not m or len(lines) < 2:
+    return False
+  var = m.group(1).split(".")[-1]
+  L = text.splitlines()
+  for ln in lines:
+    if not 0 < ln <= len(L):
+      continue
+    mm = re.match(r"\s*assign\s+(\w+)\s*=\s*(\w+)((\[[\d:]+\])+)\s*;", L[ln - 1])
+    if mm and mm.group(1) == var and "__" in var:
+      src = mm.group(2)
+      if var.startswith(src + "__"):
+        return True
+      # B__i__f = B__f[i]
+      parts = var.split("__")
+      if src.split("__")[0] == parts[0] and set(src.split("__")) <= set(parts):
+        return True
+  return False
+
+
+def _struct_wire_split(text, undriven_msgs):
+  """Yosys backend, struct-typed signal: the packed whole `B` and the flattened fields `B__f` are
+  separate variables; a block that writes one form while readers use the other leaves the read
+  form undriven.  -> name of such a variable or ''."""
+  names = set()
+  for m in undriven_msgs:
+    mm = re.search(r"variable '([\w.]+)'", m)
+    if mm:
+      names.add(mm.group(1).split(".")[-1])
+  if not names:
+    return ""
+  decl = set(re.findall(r"^\s*(?:input|output)?\s*logic\s*(?:\[[^\]]+\]\s*)*(\w+)", text, re.M))
+  for u in sorted(names):
+    parts = u.split("__")
+    for k in range(1, len(parts)):
+      if "__".join(parts[:k]) in decl:
+        return u                      # field form undriven, whole form exists
+    if any(d.startswith(u + "__") for d in decl):
+      return u                        # whole form undriven, field form exists
+  return ""
 
 
 def _line_of(text, e):
